@@ -1,6 +1,6 @@
 SPEC = dict(
     props_file="C01",
-    legs=[dict(family="bounds", oracles=["prop_ok"], tie_oracles=["tie_ok"], profiles=["debug", "release"], mask=[0],
+    legs=[dict(family="bounds", oracles=["prop_ok"], tie_oracles=["tie_ok"], profiles=["debug", "release"], mask=[0], search_focus="mc", search_oracles=["mc_ok"], n_search=40,
                n_quick=70, n_thorough=700, panic_is_violation=True)],
     level_text="Theorems (Props/C01.v), deterministic half of C01, over IEEE binary64 (Coq primitive floats, Flocq): for EVERY finite "
                "non-negative estimate, every lg_k (HLL 4..21, CPC 4..26), both estimators of each family (HIP / composite-out-of-order, "
